@@ -134,7 +134,7 @@ pub fn suites() -> Vec<Suite> {
             head_len: HEAD_LEN,
             op_len: OP_LEN,
             max_ops: 24,
-            quick_cases: 2_500,
+            quick_cases: 8_000,
             thorough_cases: 200_000,
             run,
             direct: Some(direct_with::<C20Oracle>),
@@ -146,7 +146,7 @@ pub fn suites() -> Vec<Suite> {
             head_len: HEAD_LEN,
             op_len: OP_LEN,
             max_ops: 24,
-            quick_cases: 1_500,
+            quick_cases: 5_000,
             thorough_cases: 150_000,
             run: run_mixed,
             direct: Some(direct_with::<C20Oracle>),
